@@ -10,6 +10,11 @@ def run(ctx):
     n = 500 if ctx.quick() else 12000
     H, impl, model, dis, hits = hc.run_profile(ctx, profiles.C04, n, trigger=trigger,
         claims=lambda op, a, b: op in ('DE', 'RF', 'RK', 'KG', 'EN'))
+    if not ctx.quick() and not hits:
+        import hist; x = hist.x
+        hc.exhaustive(ctx, 'rotation sequences', ['SETUP', 'AH '+x('D'), 'AT '+x('D')+' '+x('a')+' 0 -', 'AT '+x('D')+' '+x('b')+' 1 '+x('a'), 'AT '+x('D')+' '+x('c')+' 0 '+x('b'), 'AA '+x('S'), 'AT '+x('S')+' '+x('p')+' 0 -', 'UPD', 'KG '+x('D::b'), 'KG '+x('D::c && S::p'), 'EN 1 '+x('D::a'), 'EN 1 '+x('D::c')],
+            ['RK '+x('D::a'), 'RK '+x('D::c'), 'RK '+x('S::p'), 'RK '+x('*'), 'RF 0 1', 'RF 0 0', 'RF 1 1', 'EN 99 '+x('D::a'), 'EN 99 '+x('D::b || S::p'), 'EN 1 '+x('D::b')],
+            5, ['DE 0 0', 'DE 0 1', 'DE 1 0', 'DE 1 1', 'DE 0 2', 'DE 1 2', 'DE 0 3', 'DE 1 3'] + ['DE 0 4', 'DE 1 4', 'DE 0 5', 'DE 1 5'], claims=lambda op, a, b: op in ('DE', 'RF', 'RK', 'KG', 'EN'))
     hc.vm_crosscheck(ctx, H, model)
     hc.finish(ctx, f'{n} random histories biased to partial rekeys, refreshes with both flags and encapsulations under any earlier public key; '
               'non-trivial = contains a rekey, a later refresh and decapsulations')
